@@ -38,6 +38,8 @@ def main():
             return 9
         r = sh(["git", "-C", wt, "apply", os.path.join(src, "patch.diff")])
         if r.returncode != 0:
+            r = sh(["git", "-C", wt, "apply", "--3way", os.path.join(src, "patch.diff")])
+        if r.returncode != 0:
             print("patch does not apply:", r.stderr)
             return 9
         env = dict(os.environ, PYTHONPATH=wt, PYTHONDONTWRITEBYTECODE="1")
